@@ -4,14 +4,15 @@ import math
 import os
 import re
 
+from harness.lib import pytranslate
 from harness.lib import sx as SX
 
 ID = "C09"
 COQ_DIR = "C09"
 RUN_MOD = "C09.Run"
 MODEL_TARGETS = ["C09/Run.vo"]
-PROOF_TARGETS = ["C09/Lemmas.vo", "C09/LemmasSeq.vo"]
-PROPS = ["C09/Props.v"]
+PROOF_TARGETS = ["C09/Lemmas.vo", "C09/LemmasSeq.vo", "C09/TransEq.vo"]
+PROPS = ["C09/Props.v", "C09/PropsTranslated.v"]
 ALLOWED_AXIOMS = []
 IMPL_TIMEOUT = 5.0
 COQ_SHARD = 20   # the printed observation of a shard must stay well below coqc's stack limit (overflow seen at ~34000 characters; worst shard now ~14000 quick / ~22000 thorough)
@@ -44,6 +45,21 @@ TRUSTED_BASE = [
     "pattern (parsed with re._parser) are read from ak/color.py by harness/props/c09.py:gen_consts (ast, fail-closed)",
     "CPython semantics of re.sub for a pattern of the shape LITERALS [class]* LITERAL, of str.encode() (UTF-8), of "
     "int(str) on ASCII strings and of f'{int}'",
+    "for the *_translated theorems: the shared translator harness/lib/pytranslate.py (Python ast -> Gallina, fail closed, NOT verified; "
+    "`python -m harness.lib.pytranslate --selftest` compares ~4000 calls of 19 translated functions with CPython, among them a "
+    "class modelled on _ColorSequences) and coq/Common/PyLib.v, which fixes the meaning of the constructs used by "
+    "_ColorSequences._make_seq_element / .make: the dynamic value type pyval (None, bool, int, float as exact fraction or "
+    "'some float', str, tuple, list, other object with a hashability flag), isinstance(x, str | int | (list, tuple)) as a case "
+    "split (bool counts as int), `x in dict` / dict[x] for a str-keyed dict (TypeError for an unhashable x), len, any(generator) "
+    "with short circuit, tuple unpacking (ValueError), + and * on dynamic values (ints exact; floats become an untracked float; "
+    "other objects = OtherErr 'not modelled'), < > on ints, truthiness (None, bool, int, str, list; other objects not modelled), "
+    "str.startswith, slices, int(str) for ASCII text, f-strings with {str} {int} {int(x)}, str + str, ';'.join, list.append on a "
+    "local unshared list, `is not None`, str.encode() = UTF-8 (ValueError on a lone surrogate), try/except ValueError, classmethod "
+    "calls cls.f(..) / Cls.f(..), class attribute constants; c09.TRANSLATED declares the parameter types (every parameter of "
+    "make and the colour of _make_seq_element: any Python value; is_bg: bool); pytranslate.check_hygiene: nothing else in "
+    "ak/color.py rebinds, stores to or mutates _ColorSequences._COLORS / the two methods, no subclass of _ColorSequences",
+    "coq/C09/TransInst.v: color_of (what the hand model keeps of a Python value) and the convention that the effects / no_color / "
+    "make_bytes are passed as bools (VBool) -- None and other falsy/truthy objects are not covered by the translated theorems",
 ]
 ASSUMPTIONS = [
     "texts are str free of the escape character U+001B and of lone surrogates (the property's quantifier)",
@@ -370,8 +386,57 @@ def _extract_strip(cls):
     return {"strip_open": [v for _, v in lits], "strip_close": close[1], "strip_ranges": ranges, "strip_d": has_d}
 
 
+TRANSLATED = {  # what is translated by harness/lib/pytranslate.py, with the parameter types (dyn = any Python value)
+    "_ColorSequences._make_seq_element": ["dyn", "bool"],
+    "_ColorSequences.make": ["dyn"] * 9,
+}
+
+
+def _translate(src):
+    """_ColorSequences._make_seq_element and .make of the current source -> coq/gen/C09_Translated.v (fail closed);
+    coq/C09/TransEq.v proves them equal to the hand model, coq/C09/PropsTranslated.v restates the main theorems"""
+    tr = pytranslate.Translator(src, pytranslate.Config(source_name="ak/color.py"))
+    rts = {k: tr.add_function(k, t) for k, t in TRANSLATED.items()}
+    tr.check_hygiene()
+    if rts["_ColorSequences._make_seq_element"] != "str":
+        raise pytranslate.Unsupported(f"_make_seq_element returns {rts['_ColorSequences._make_seq_element']}, str expected")
+    if tr.coq_type(rts["_ColorSequences.make"]) != "(list Z * list Z)":
+        raise pytranslate.Unsupported(f"make returns {rts['_ColorSequences.make']}, a pair of str / bytes expected")
+    return tr.emit("_ColorSequences")
+
+
+def _translation_stub(reason):
+    return pytranslate.stub(pytranslate.Config(source_name="ak/color.py"), reason, [
+        ("T__ColorSequences__make_seq_element", "(v : pyval) (b : bool) : res (list Z)"),
+        ("T__ColorSequences_make", "(v1 v2 v3 v4 v5 v6 v7 v8 v9 : pyval) : res (list Z * list Z)")])
+
+
 def gen_consts(repo):
+    """constants (ast extractor below) + translation (harness/lib/pytranslate.py).  The translation of THIS source (or the stub
+    saying why there is none) is written even when the constant extractor refuses the source, so that the obligations of
+    coq/C09/TransEq.v are checked against the current text in every case; any refusal is raised (= proof step broken)."""
     src = open(os.path.join(repo, "ak", "color.py")).read()
+    try:
+        translated, terr = _translate(src), None
+    except pytranslate.Unsupported as e:
+        translated, terr = _translation_stub(str(e)), e
+    from harness.lib import coqrun
+    try:
+        gens = _gen_consts_only(src)
+    except Exception:
+        with coqrun.Lock():
+            coqrun.write_gen("C09_Translated", translated)
+        raise
+    gens["C09_Translated"] = translated
+    if terr is not None:
+        with coqrun.Lock():
+            for name, text in gens.items():
+                coqrun.write_gen(name, text)
+        raise ExtractError(f"translator (harness/lib/pytranslate.py): {terr}")
+    return gens
+
+
+def _gen_consts_only(src):
     tree = ast.parse(src)
     classes = {n.name: n for n in tree.body if isinstance(n, ast.ClassDef)}
     _need("_ColorSequences" in classes and "CHText" in classes, "classes _ColorSequences / CHText not found")
@@ -1621,7 +1686,11 @@ def shrink_candidates(case):
                 yield {"k": "text", "items": items[:i] + items[i + 1:]}
 
 
-TECHNIQUE = ("Coq proof (induction over chunk lists and parameter lists, exhaustive computation over the 256 colour codes) on a "
+TECHNIQUE = ("Second tie to the code: _ColorSequences._make_seq_element and .make are translated from the current source to Gallina on "
+             "every run by the shared fail-closed translator harness/lib/pytranslate.py (coq/gen/C09_Translated.v), proved equal to the "
+             "hand model on ALL Python values (coq/C09/TransEq.v) and the main theorems are restated for the translated functions "
+             "(coq/C09/PropsTranslated.v); the correspondence run evaluates the translated make next to the hand model's.  First tie: "
+             "Coq proof (induction over chunk lists and parameter lists, exhaustive computation over the 256 colour codes) on a "
              "hand-written Gallina model + reference ECMA-48 terminal as specification + per-run correspondence check "
              "(vm_compute vs implementation, single calls and operation sequences on shared mutable objects) + constants "
              "regenerated from the source")
@@ -1643,7 +1712,13 @@ LEVEL_TEXT = ("Full, about the model of ak/color.py, for unbounded lists of part
               "and excludes m, ...) are re-proved by computation.  The model is compared with the implementation on ~2950 (quick) / "
               "~15000 (thorough) cases per run including the exhaustive sweep of the finite colour space.  Not proved, tested only: "
               "int() on non-ASCII digit strings after 'g' and \\d matching non-ASCII digits (outside the model, oracle only).")
-LEVEL_NOTE = ("Trusted: Coq kernel + vm_compute; the hand model's fidelity (checked by correspondence, not proved; the model is a pure "
+LEVEL_NOTE = ("For translated_mse_eq, translated_make_eq, sgr_wellformed_translated, term_shows_translated, no_bleed_translated, "
+              "strip_render_translated, invalid_raises_translated (coq/C09/PropsTranslated.v, closed under the global context) the trusted "
+              "part is the translator harness/lib/pytranslate.py + coq/Common/PyLib.v (self-tested against CPython, not verified) and the "
+              "declared parameter types, NOT the hand model's fidelity for _ColorSequences; an edit of those two methods that changes "
+              "behaviour breaks TransEq.v (or leaves the translator's subset = broken proof step), a behaviour-preserving edit the proof "
+              "script does not survive is reported as a broken obligation without failing input.  For everything else -- "
+              "Trusted: Coq kernel + vm_compute; the hand model's fidelity (checked by correspondence, not proved; the model is a pure "
               "function of the operation history, so hidden state of the implementation shows only on the histories that are run); the reference "
               "terminal Term.v as the meaning of 'shows'; re.sub / int() / str.encode semantics; the ast extractor and harness.")
 DESIGN_REF = "DESIGN.md section 8, C09"
